@@ -7,6 +7,7 @@ import (
 	"context"
 	"fmt"
 	"math/rand"
+	"os"
 	"runtime"
 	"sort"
 	"strings"
@@ -95,6 +96,14 @@ func optCase(c *Case, lean *LeanDriver) Verdict {
 		}
 		if df := Diff(r, ref); df != "" {
 			v.Other = fmt.Sprintf("optimizers=%s differs from none: %s", o, df)
+			return v
+		}
+		// explaining the plan (Opts.DebugWriter) must not change it
+		ctx, cancel := bg()
+		rd := d.Exec(ctx, NewThanos(d, EngOpts{DisableFallback: true, Debug: true}), NewMemStorage(c.Data()))
+		cancel()
+		if df := Diff(rd, ref); df != "" && !notNative(rd) {
+			v.Other = fmt.Sprintf("optimizers=%s with a debug writer differs from none: %s", o, df)
 			return v
 		}
 	}
@@ -344,6 +353,9 @@ func (r remoteEngine) NewInstantQuery(opts *promql.QueryOpts, qs string, ts time
 	return r.eng().NewInstantQuery(r.st, opts, qs, ts)
 }
 func (r remoteEngine) NewRangeQuery(opts *promql.QueryOpts, qs string, start, end time.Time, interval time.Duration) (promql.Query, error) {
+	if os.Getenv("VERIF_DEBUG_REMOTE") != "" {
+		fmt.Fprintf(os.Stderr, "REMOTE range %q %v %v %v\n", qs, start.UnixMilli(), end.UnixMilli(), interval)
+	}
 	return r.eng().NewRangeQuery(r.st, opts, qs, start, end, interval)
 }
 
@@ -351,8 +363,16 @@ func distCase(c *Case, lean *LeanDriver) Verdict {
 	v := baseVerdict(c, "dist")
 	central := execThanos(c, NewMemStorage(c.Data()))
 	if notNative(central) {
-		v.Skipped = "not-native"
-		return v
+		// the remote engines may answer their part through the fallback; the central answer is
+		// then the reference engine's
+		ctx0, cancel0 := bg()
+		central = c.Exec(ctx0, NewProm(c), NewMemStorage(c.Data()))
+		cancel0()
+		if central.Kind == "err" || strings.Contains(c.Query, "topk") || strings.Contains(c.Query, "bottomk") {
+			// (without the model there is no tie analysis for k-selections)
+			v.Skipped = "not-native"
+			return v
+		}
 	}
 	if ans, q, err := leanInfo(c, lean, "ties"); err == nil {
 		v.Features = features(q)
@@ -524,6 +544,15 @@ func fallbackCase(c *Case, lean *LeanDriver) Verdict {
 		// answered exactly as the reference engine answers it
 		if df := Diff(withFB, prom); df != "" {
 			v.Other = "fallback result differs from the reference engine: " + df
+			return v
+		}
+		// ... also with per-query options
+		c2 := c.clone()
+		c2.QLookback = 1000
+		p2 := c2.Exec(ctx, NewProm(c2), NewMemStorage(c2.Data()))
+		f2 := c2.Exec(ctx, NewThanos(c2, EngOpts{}), NewMemStorage(c2.Data()))
+		if df := Diff(f2, p2); df != "" {
+			v.Other = "fallback result with a per-query lookback differs from the reference engine: " + df
 			return v
 		}
 	}
